@@ -13,6 +13,7 @@ RATE_TABLE = [
     (tr.t_const, "p"), (tr.t_ma1, "pa"), (tr.t_ma2, "pav"), (tr.t_mm, "vpp"), (tr.t_rev, "vvpp"), (tr.t_inh, "vap"),
     (tr.t_hill, "vpn"), (tr.t_cond, "vp"), (tr.t_chain, "vp"), (tr.t_elif, "vp"), (tr.t_nested, "vp"), (tr.t_local, "vp"), (tr.t_time, "pt"), (tr.t_cap, "vp"),
     (tr.t_nestif, "vap"), (tr.t_guarded, "vap"), (tr.t_share, "vap"), (tr.t_eqgate, "vap"), (tr.t_window, "vpp"),
+    (tr.t_postcall, "vap"), (tr.t_swap, "vap"),
 ]
 
 
@@ -55,7 +56,7 @@ def gen(rng, *, ia: bool = True, time: bool = True, conditionals: bool = True, c
         derived.append("dpw")
     touched = set()
     nrx = rng.randint(1, 4)
-    table = [r for r in RATE_TABLE if (time or "t" not in r[1]) and (conditionals or r[0] not in (tr.t_cond, tr.t_chain, tr.t_elif, tr.t_cap, tr.t_nestif, tr.t_guarded, tr.t_eqgate, tr.t_window))]
+    table = [r for r in RATE_TABLE if (time or "t" not in r[1]) and (conditionals or r[0] not in (tr.t_cond, tr.t_chain, tr.t_elif, tr.t_cap, tr.t_nestif, tr.t_guarded, tr.t_eqgate, tr.t_window, tr.t_postcall))]
     if not equality_gates:
         # (a rate law that tests quantities for equality has, exactly where the equality holds, a derivative that is not the
         # derivative of the branch taken there; callers that compare Jacobians leave it out)
@@ -80,7 +81,7 @@ def gen(rng, *, ia: bool = True, time: bool = True, conditionals: bool = True, c
                 args.append(rng.choice(variables + derived))
         if fn is tr.t_eqgate:
             feats.add("equality_gate")
-        if fn in (tr.t_cond, tr.t_chain, tr.t_elif, tr.t_cap, tr.t_nestif, tr.t_guarded, tr.t_eqgate, tr.t_window):
+        if fn in (tr.t_cond, tr.t_chain, tr.t_elif, tr.t_cap, tr.t_nestif, tr.t_guarded, tr.t_eqgate, tr.t_window, tr.t_postcall):
             feats.add("conditional")
         pool = variables if not untouched or nvar == 1 else variables[: max(1, nvar - rng.randint(0, 1))]
         tv = rng.sample(pool, rng.randint(1, min(2, len(pool))))
